@@ -81,6 +81,9 @@ func (rr *SIG) Verify(k *KEY, buf []byte) error {
 	if rr.KeyTag == 0 || rr.SignerName == "" || rr.Algorithm == 0 {
 		return ErrKey
 	}
+	if rr.Algorithm != k.Algorithm {
+		return ErrKey
+	}
 
 	h, cryptohash, err := hashFromAlgorithm(rr.Algorithm)
 	if err != nil {
